@@ -264,6 +264,42 @@ func Os_File_Read(f *os.File, p []byte) (int, error) {
 	return n, nil
 }
 
+// Os_File_ReadAt: pread - like Read at the given offset, the file position is
+// not moved; fewer than len(p) bytes come with io.EOF.
+func Os_File_ReadAt(f *os.File, p []byte, off int64) (int, error) {
+	h := handle(f)
+	if h == nil || h.Closed {
+		return 0, &FSError{"read", "", 3}
+	}
+	if off < 0 {
+		return 0, &FSError{"readat", h.F.Path, 4}
+	}
+	save := h.Pos
+	h.Pos = off
+	n, err := Os_File_Read(f, p)
+	h.Pos = save
+	if err == nil && n < len(p) {
+		err = io.EOF
+	}
+	return n, err
+}
+
+// Os_File_WriteAt: pwrite - the file position is not moved.
+func Os_File_WriteAt(f *os.File, p []byte, off int64) (int, error) {
+	h := handle(f)
+	if h == nil || h.Closed {
+		return 0, &FSError{"write", "", 3}
+	}
+	if off < 0 {
+		return 0, &FSError{"writeat", h.F.Path, 4}
+	}
+	save := h.Pos
+	h.Pos = off
+	n, err := Os_File_Write(f, p)
+	h.Pos = save
+	return n, err
+}
+
 func Os_File_Write(f *os.File, p []byte) (int, error) {
 	h := handle(f)
 	if h == nil || h.Closed {
@@ -273,9 +309,16 @@ func Os_File_Write(f *os.File, p []byte) (int, error) {
 		if FS.CrashAt != 0 && FS.Steps == FS.CrashAt && len(p) > 0 {
 			// the process is killed during this write: an arbitrary prefix of
 			// the data has reached the file
-			k := vsym.Int64("crash-partial-write")
-			vsym.Assume(k >= 0)
-			vsym.Assume(k <= int64(len(p)))
+			var k int64
+			if vsym.IsConcrete(len(p)) && len(p) <= 64 {
+				// small byte-precise writes (header fields, chunk table): every
+				// prefix length separately, so that the bytes stay precise
+				k = int64(vsym.Choose("crash-partial-write", len(p)+1))
+			} else {
+				k = vsym.Int64("crash-partial-write")
+				vsym.Assume(k >= 0)
+				vsym.Assume(k <= int64(len(p)))
+			}
 			FS.Dead = false
 			FS.CrashAt = 0
 			_, _ = Os_File_Write(f, p[:k])
